@@ -135,7 +135,9 @@ def run(tier):
                 t = "context"
             line += r2.choice([1, 1, 1, 2, 6])
             c = r2.randrange(len(CODES) - 1) if t == "match" else r2.randrange(len(CODES))
-            if t == "match" and "foo" not in CODES[c]:
+            if t == "match" and fmt.startswith("json") and r2.random() < 0.2:
+                c = len(CODES) - 1      # a match record without submatches: what `rg --json -v` (inverted match) reports
+            elif t == "match" and "foo" not in CODES[c]:
                 c = 2
             if len(CODES[c]) > 3000 and not fmt.startswith("json"):
                 c = 2          # (a plain or coloured line beyond --max-line-length is truncated; rg --json records are exempt)
@@ -213,7 +215,7 @@ def run(tier):
         "evaluations": len(events), "distinct_nontrivial": len({json.dumps(j) for j in jobs}),
         "rule": f"every sequence of <= {maxn} records over 2 paths x (match, context, function-context header) plus seeded sequences "
                 "of 4-9 records; line numbers present/absent with gaps 1, 2, 6 (context discontinuities); formats: coloured git grep, "
-                "plain text (paths restricted to the unambiguous class), rg --json through `delta rg` and on stdin; both output styles; "
+                "plain text (paths restricted to the unambiguous class), rg --json through `delta rg` and on stdin (match records with several, one and no submatches); both output styles; "
                 "paths with dashes, digits, dots, spaces, '=' and ':'",
         "samples": [{"fmt": jobs[i][1], "style": jobs[i][2], "records": jobs[i][0]} for i in (0, len(jobs) // 2, len(jobs) - 1)],
         "exhaustive": False,
